@@ -317,6 +317,80 @@ func c01Chains(ts []*tree.Node) *core.Space {
 	}
 }
 
+// reused *Config source: A<-B (config object), A<-C, then the same B object must still
+// merge like the original B (into A again and into an empty config).
+func c01Reuse(ts []*tree.Node) *core.Space {
+	var cs []*tree.Node
+	for _, t := range ts {
+		if t.K == tree.Cont {
+			cs = append(cs, t)
+		}
+	}
+	n := len(cs)
+	np := len(allPolicies)
+	dec := func(i int) (p1, p2 tree.Policy, a, b, c *tree.Node) {
+		d := mixedRadix(i, n, n, n, np, np)
+		return allPolicies[d[3]], allPolicies[d[4]], tree.Label(cs[d[0]], "A"), tree.Label(cs[d[1]], "B"), tree.Label(cs[d[2]], "C")
+	}
+	return &core.Space{
+		Name: "reused-config-source",
+		Size: product(n, n, n, np, np),
+		Text: func(i int) string {
+			p1, p2, a, b, c := dec(i)
+			return fmt.Sprintf("cb:=NewFrom(B=%s); A=%s <-%s- cb; A <-%s- C=%s; A <-%s- cb; E={} <-%s- cb", b, a, p1, p2, c, p1, p1)
+		},
+		Exec: func(i int) core.Result {
+			p1, p2, a, b, c := dec(i)
+			m1 := tree.Merge(p1, wrapV(a), wrapV(b))
+			m2 := tree.Merge(p2, m1, wrapV(c))
+			wantA := tree.Merge(p1, m2, wrapV(b))
+			wantE := tree.Merge(p1, tree.New(), wrapV(b))
+			var gotA, gotE string
+			var err error
+			pi := core.Guard(func() {
+				var ca, cb *ucfg.Config
+				if ca, err = ucfg.NewFrom(wrapV(a).ToGo()); err != nil {
+					return
+				}
+				if cb, err = ucfg.NewFrom(wrapV(b).ToGo()); err != nil {
+					return
+				}
+				if err = ca.Merge(cb, policyOpt[p1]...); err != nil {
+					return
+				}
+				if err = ca.Merge(wrapV(c).ToGo(), policyOpt[p2]...); err != nil {
+					return
+				}
+				if err = ca.Merge(cb, policyOpt[p1]...); err != nil {
+					return
+				}
+				e := ucfg.New()
+				if err = e.Merge(cb, policyOpt[p1]...); err != nil {
+					return
+				}
+				if gotA, err = canonOfConfig(ca); err != nil {
+					return
+				}
+				gotE, err = canonOfConfig(e)
+			})
+			if pi != nil {
+				return apiPanic("reuse", pi)
+			}
+			sig := fmt.Sprintf("reuse %s,%s %s<-%s<-%s", p1, p2, kindOf(a), kindOf(b), kindOf(c))
+			if err != nil {
+				return core.Fail("reuse", "ERROR "+sig, err.Error())
+			}
+			if w := wantA.Canon(); gotA != w {
+				return core.Fail("reuse", "MISMATCH "+sig, fmt.Sprintf("A after the chain: model=%s impl=%s", w, gotA))
+			}
+			if w := wantE.Canon(); gotE != w {
+				return core.Fail("reuse", "MISMATCH source-changed "+sig, fmt.Sprintf("empty<-cb after the chain: model=%s impl=%s", w, gotE))
+			}
+			return core.Result{Nontrivial: overlap(a, b) || overlap(b, c), Outcome: "reuse/" + p1.String() + "/" + p2.String()}
+		},
+	}
+}
+
 // identities: merging the empty config, merging a config object into itself.
 func c01Identities(ts []*tree.Node) *core.Space {
 	n := len(ts)
@@ -416,6 +490,7 @@ func init() {
 					c01Pairs("pairs-spines-depth4", spines(3), []mergeRep{repMap}, false),
 					c01Pairs("pairs-mixed", mixedTrees(true), []mergeRep{repMap}, true),
 					c01Chains(t1),
+					c01Reuse(unionTrees(t1, spines(1))),
 					c01Identities(unionTrees(full, spines(2), mixedTrees(false))),
 				}
 			}
@@ -425,6 +500,7 @@ func init() {
 				c01Pairs("pairs-spines-depth3", spines(2), []mergeRep{repMap}, false),
 				c01Pairs("pairs-mixed", mixedTrees(false), []mergeRep{repMap}, true),
 				c01Chains(unionTrees(cachedEnum(1, kA, 2), []*tree.Node{tree.Dict("a", tree.LeafN("L"), "b", tree.LeafN("L")), tree.Dict("b", tree.List(tree.LeafN("L")))})),
+				c01Reuse(unionTrees(cachedEnum(1, kA, 2), []*tree.Node{tree.Dict("a", tree.Dict("a", tree.LeafN("L"))), tree.Dict("a", tree.List(tree.LeafN("L"))), tree.Dict("a", tree.LeafN("L"), "b", tree.List(tree.LeafN("L")))})),
 				c01Identities(unionTrees(small, spines(1), mixedTrees(false))),
 			}
 		},
